@@ -3650,6 +3650,7 @@ def comparison(operator: Comparator) -> Comparator:
         if not (
             issubclass(other.__class__, FormatterGroup)
             and (self.__class__.__name__ == other.__class__.__name__)
+            and (self.base_groups.keys() == other.base_groups.keys())
         ):
             return NotImplemented
         return operator(self, other)
